@@ -15,7 +15,7 @@ RULE = (
     "sample() call; distinct = its (kind,b,t,n,seed,n_chains,chain) tuple; non-trivial = t>1 or b>0 or n_chains>1"
 )
 ASSUMPTIONS = ["non-overlap of streams is decided on the first 4096 64-bit outputs of each stream (no shared value, no shared window)"]
-REQUIRED = {"schedules_called_with_positional_arguments": {"quick": 40, "thorough": 600}, "cli_streams_checked": {"quick": 16, "thorough": 100}, "resets_compared_with_untouched_model": {"quick": 40, "thorough": 250}, "recorded_samples_rechecked": {"quick": 150, "thorough": 900}, "cli_schedules_checked": {"quick": 24, "thorough": 300}, "cli_schedules_with_zero_burnin": {"quick": 12, "thorough": 150}, "captures_at_log_level_DEBUG": {"quick": 30, "thorough": 150}, "schedules_checked": {"quick": 500, "thorough": 2000}, "stream_pairs_checked": {"quick": 200, "thorough": 2000}, "vi_checked": {"quick": 40, "thorough": 250}}
+REQUIRED = {"schedules_on_a_model_with_both_base_classes": {"quick": 20, "thorough": 300}, "schedules_called_with_positional_arguments": {"quick": 40, "thorough": 600}, "cli_streams_checked": {"quick": 16, "thorough": 100}, "resets_compared_with_untouched_model": {"quick": 40, "thorough": 250}, "recorded_samples_rechecked": {"quick": 150, "thorough": 900}, "cli_schedules_checked": {"quick": 24, "thorough": 300}, "cli_schedules_with_zero_burnin": {"quick": 12, "thorough": 150}, "captures_at_log_level_DEBUG": {"quick": 30, "thorough": 150}, "schedules_checked": {"quick": 500, "thorough": 2000}, "stream_pairs_checked": {"quick": 200, "thorough": 2000}, "vi_checked": {"quick": 40, "thorough": 250}}
 GRID = {"quick": (12, 5, 8), "thorough": (24, 7, 12)}
 
 
@@ -120,6 +120,13 @@ def run_shard(rec, tier, seed, shard, nshards):
         rec.case(("grid", b, t, n), nontrivial=(t > 1 or b > 0))
         w = {"b": b, "t": t, "n": n, "seed": sd, "n_chains": nch, "chain_index": ci}
         try:
+            if rng.random() < 0.15:
+                # a user's model that is an MCMC model AND offers a direct sample(n) (both base classes): asked with a
+                # schedule, it is stepped through that schedule like every MCMC model
+                from batchie.core import VIModel as _VI
+
+                m = type("CountingModelWithDirectSampling", (CountingModel, _VI), {"sample": lambda self, num_samples: [Tag(-1) for _ in range(num_samples)]})()
+                rec.count("schedules_on_a_model_with_both_base_classes")
             if rng.random() < 0.3:
                 # every argument by position, in the documented order
                 res = sampling.sample(m, holder, sd, nch, ci, b, t)
